@@ -5,6 +5,7 @@ import (
 	"go/ast"
 	"go/token"
 	"go/types"
+	"os"
 	"sort"
 	"strings"
 
@@ -337,7 +338,7 @@ func (c *Ctx) actionConstants() {
 func CheckC14(c *Ctx) {
 	run := c.Run
 	run.Technique = "stream-shape calculus on every strategy Report method: the template's range-over-dates with one Value() per column is a zip; every column's length and anchor are proved equal to the date stream's for symbolic configurations"
-	run.Explanation = "helper/report.tmpl ranges over .Date and calls .Value once on every column per row, so a report is a zip of the date stream with every column. For each of the strategy Report methods the date stream and every column stream (found through the constructed helper.Report object, not by name) are derived symbolically; for all admissible configurations and every n beyond the warm-up each column is proved to have exactly the date stream's length (no column runs dry, none keeps unconsumed values) and the same anchor with respect to the snapshots (row d carries the values computed for d). The indicator warm-up contracts these verdicts rest on (every indicator whose Compute was summarised by IdlePeriod() while a Report was analysed, and transitively the indicators it is built from) are re-proved by this check: max(0, n - IdlePeriod()) values anchored at IdlePeriod(). The Close column must derive from SnapshotsAsClosings, the annotation column from ActionsToAnnotations of this strategy's own ComputeWithOutcome, the outcome column from its outcomes."
+	run.Explanation = "helper/report.tmpl ranges over .Date and calls .Value once on every column per row, so a report is a zip of the date stream with every column. For each of the strategy Report methods the date stream and every column stream (found through the constructed helper.Report object, not by name) are derived symbolically; for all admissible configurations and every n beyond the warm-up each column is proved to have exactly the date stream's length (no column runs dry, none keeps unconsumed values) and the same anchor with respect to the snapshots (row d carries the values computed for d). The indicator warm-up contracts these verdicts rest on (every indicator whose Compute was summarised by IdlePeriod() while a Report was analysed, and transitively the indicators it is built from) are re-proved by this check: max(0, n - IdlePeriod()) values anchored at IdlePeriod(). Values of the fixed columns, decided on their value terms: the date stream is the snapshots' Date field unchanged (no conversion or arithmetic), the column named Close is their Close field, the annotation column is ActionsToAnnotations of exactly the action term the strategy's own Compute yields, and the Outcome column is 100 * Outcome(Close, those actions)."
 	run.Trusted = []string{"go/types", "template semantics: one Value() per column per date row (helper/report.tmpl read once; the rule re-checks that the template still ranges over .Date and calls .Value)", "declared IdlePeriod contracts (C02)", "Strategy contract for wrapped strategies (C05)", "Γ"}
 	reps := StrategyMethods(c.P, "Report")
 	run.Count("report_methods", len(reps))
@@ -485,6 +486,7 @@ func (c *Ctx) checkReport(r *shape.Result, fi *load.FuncInfo) {
 		return
 	}
 	shape.MarkConsumed(date, "report")
+	c.reportValues(r, fi, date, cols)
 	g := beyondWarmup(r)
 	nCols := 0
 	for i, cell := range cols.Elems {
@@ -622,4 +624,201 @@ func (c *Ctx) decoratorHold() {
 		}
 	}
 	run.Floor("decorator_steps", 2)
+}
+
+// reportValues: what the rows are labelled with and what the fixed columns carry. The date of
+// row d is the Date field of snapshot d, unchanged (no conversion, no arithmetic: the template
+// prints its calendar day); a column named Close carries the Close field of the same snapshots.
+func (c *Ctx) reportValues(r *shape.Result, fi *load.FuncInfo, date *shape.Stream, cols *shape.Slice) {
+	run := c.Run
+	tm := c.termsOf(r)
+	pos := c.P.Pos(fi.Decl.Pos())
+	strip := func(e sym.Expr) sym.Expr {
+		for {
+			call, ok := e.(sym.Call)
+			if ok && call.Fn == "at" && len(call.Args) == 2 {
+				e = call.Args[0]
+				continue
+			}
+			return e
+		}
+	}
+	isField := func(e sym.Expr, field string) bool {
+		e = strip(e)
+		call, ok := e.(sym.Call)
+		if !ok || call.Fn != "field:"+field || len(call.Args) != 1 {
+			return false
+		}
+		v, ok := strip(call.Args[0]).(sym.Var)
+		return ok && strings.HasPrefix(v.Name, "src:")
+	}
+	term := func(s *shape.Stream) (e sym.Expr, ok bool) {
+		defer func() {
+			if recover() != nil {
+				e, ok = nil, false
+			}
+		}()
+		return tm.Of(s), true
+	}
+	if dt, ok := term(date); ok {
+		good := isField(dt, "Date")
+		run.Oblige(good)
+		run.Count("report_date_streams", 1)
+		if !good {
+			run.Violate(report.Finding{Rule: "report/date-value", Site: r.RootName, Detail: short(sym.CanonString(dt), 100), Pos: pos,
+				Message: "the rows of the report are labelled with " + short(sym.CanonString(dt), 160) + ", not with the Date of the snapshot the row belongs to: a converted or shifted date prints another calendar day"})
+		}
+	}
+	for i, cell := range cols.Elems {
+		co, ok := cell.V.(*shape.Object)
+		if !ok {
+			continue
+		}
+		name := ""
+		if nv, ok := shape.FieldOf(co, "name").(shape.StrV); ok {
+			name = nv.S
+		}
+		if os.Getenv("VERIF_DEBUG_COLS") != "" {
+			if vs, _ := columnStream(co); vs != nil {
+				if ct, ok := term(vs); ok {
+					fmt.Fprintf(os.Stderr, "COL %s #%d name=%q type=%s term=%s\n", r.RootName, i, name, co.TypeName(), short(sym.CanonString(ct), 300))
+				}
+			}
+		}
+		switch {
+		case co.TypeName() == "helper.annotationReportColumn":
+			if vs, _ := columnStream(co); vs != nil {
+				if ct, ok := term(vs); ok {
+					c.reportActionsColumn(r, fi, fmt.Sprintf("%s/column%d", r.RootName, i), ct, "annotation")
+				}
+			}
+		case name == "Outcome":
+			if vs, _ := columnStream(co); vs != nil {
+				if ct, ok := term(vs); ok {
+					c.reportActionsColumn(r, fi, fmt.Sprintf("%s/column%d", r.RootName, i), ct, "outcome")
+				}
+			}
+		}
+		if name != "Close" {
+			continue
+		}
+		vs, _ := columnStream(co)
+		if vs == nil {
+			continue
+		}
+		if ct, ok := term(vs); ok {
+			good := isField(ct, "Close")
+			run.Oblige(good)
+			run.Count("report_close_columns", 1)
+			if !good {
+				run.Violate(report.Finding{Rule: "report/close-value", Site: fmt.Sprintf("%s/column%d", r.RootName, i), Detail: short(sym.CanonString(ct), 100), Pos: pos,
+					Message: "the column named Close carries " + short(sym.CanonString(ct), 160) + ", not the closing price of the row's snapshot"})
+			}
+		}
+	}
+}
+
+// oneSource renames every input-series leaf to the same name, so that terms derived in methods
+// whose snapshot parameter is named differently can be compared.
+func oneSource(e sym.Expr) sym.Expr {
+	m := map[string]bool{}
+	sym.Vars(e, m)
+	sub := map[string]sym.Expr{}
+	for v := range m {
+		if strings.HasPrefix(v, "src:") {
+			sub[v] = sym.V("src:$")
+		}
+	}
+	if len(sub) == 0 {
+		return e
+	}
+	return sym.Subst(e, sub)
+}
+
+// reportActionsColumn: the annotation column is ActionsToAnnotations of this strategy's own
+// actions and the outcome column is 100 * Outcome(closing prices, this strategy's own actions):
+// the action term inside the column equals the value term of the strategy's Compute.
+func (c *Ctx) reportActionsColumn(r *shape.Result, fi *load.FuncInfo, site string, ct sym.Expr, kind string) {
+	run := c.Run
+	pos := c.P.Pos(fi.Decl.Pos())
+	// the strategy's own Compute
+	var own sym.Expr
+	if r.Recv != nil {
+		tn := r.Recv.TypeName()
+		if i := strings.Index(tn, "."); i > 0 {
+			for _, cf := range StrategyMethods(c.P, "Compute") {
+				rs := c.Results(cf, Opts{Mode: shape.ModeContracts})
+				if len(rs) == 0 || rs[0].Recv == nil || rs[0].Recv.TypeName() != tn || load.RelPkg(cf.Pkg.PkgPath) != load.RelPkg(fi.Pkg.PkgPath) {
+					continue
+				}
+				if outs := retStreams(rs[0]); len(outs) == 1 {
+					func() {
+						defer func() { _ = recover() }()
+						own = oneSource(c.termsOf(rs[0]).Of(outs[0]))
+					}()
+				}
+			}
+		}
+	}
+	if own == nil {
+		return // the strategy's action term is not derivable: nothing to compare with
+	}
+	fnIs := func(e sym.Expr, suffix string) (sym.Call, bool) {
+		call, ok := e.(sym.Call)
+		if !ok || !strings.HasPrefix(call.Fn, "closure:strategy."+suffix+"#") {
+			return sym.Call{}, false
+		}
+		return call, true
+	}
+	var acts sym.Expr
+	shapeOK := false
+	switch kind {
+	case "annotation":
+		if a, ok := fnIs(ct, "ActionsToAnnotations"); ok && len(a.Args) == 1 {
+			inner := a.Args[0]
+			if n, ok := fnIs(inner, "NormalizeActions"); ok && len(n.Args) == 1 {
+				inner = n.Args[0]
+			}
+			acts, shapeOK = inner, true
+		}
+	case "outcome":
+		// 100 * Outcome(close, actions)
+		var find func(e sym.Expr) (sym.Call, bool)
+		find = func(e sym.Expr) (sym.Call, bool) {
+			switch x := e.(type) {
+			case sym.Call:
+				if o, ok := fnIs(x, "Outcome"); ok {
+					return o, true
+				}
+			case sym.Bin:
+				if o, ok := find(x.L); ok {
+					return o, true
+				}
+				return find(x.R)
+			case sym.Neg:
+				return find(x.X)
+			}
+			return sym.Call{}, false
+		}
+		if o, ok := find(ct); ok && len(o.Args) == 2 {
+			acts = o.Args[1]
+			closeOK := false
+			if f, ok := o.Args[0].(sym.Call); ok && f.Fn == "field:Close" {
+				closeOK = true
+			}
+			shapeOK = closeOK && sym.Equal(ct, sym.Mul(sym.N(100), o))
+		}
+	}
+	run.Count("report_"+kind+"_columns", 1)
+	// which actions, not when: the alignment of the column with the dates is the len/anchor rules' subject
+	good := shapeOK && acts != nil && (sym.Equal(oneSource(acts), own) || sym.Equal(anonymise(oneSource(acts)), anonymise(own)) || equalModuloShift(oneSource(acts), own))
+	run.Oblige(good)
+	if !good {
+		what := "ActionsToAnnotations of this strategy's own actions"
+		if kind == "outcome" {
+			what = "100 * Outcome(closing prices, this strategy's own actions)"
+		}
+		run.Violate(report.Finding{Rule: "report/" + kind + "-value", Site: site, Detail: short(sym.CanonString(ct), 100), Pos: pos,
+			Message: "the " + kind + " column is not " + what + ": it carries " + short(sym.CanonString(ct), 200)})
+	}
 }
